@@ -656,6 +656,13 @@ def make_daemon_fn(op: Operator, hs: dict[str, Any]) -> Any:
         sim = run.sim
         outcome = 'returned'
         c.extra = {}
+
+        async def watch_flag() -> None:
+            await stopped.wait()
+            c.extra['flag_at'] = sim.now
+            c.extra['reason_at_flag'] = str(stopped.reason)
+
+        watcher = asyncio.ensure_future(watch_flag())
         try:
             if mode == 'obey':
                 # exits promptly when the flag is set
@@ -711,6 +718,7 @@ def make_daemon_fn(op: Operator, hs: dict[str, Any]) -> Any:
             c.cancelled = True
             raise
         finally:
+            watcher.cancel()
             c.stop_seen = bool(stopped)
             if c.extra is not None:
                 c.extra['reason_at_exit'] = str(stopped.reason)
@@ -882,6 +890,18 @@ class Run:
                     conn._on_server_event({'type': 'ERROR', 'object': a.get('object') or cl.status_payload(
                         a.get('code', 500), 'InternalError', 'sim: injected watch error')})
                     sim.count('fault.stream-error')
+        elif do in ('peer-set', 'peer-clear'):
+            rd = self.rdef(a.get('kind', 'clusterkopfpeerings'))
+            if do == 'peer-set':
+                rec: Any = {'priority': a.get('priority', 100), 'lifetime': a.get('lifetime', 60),
+                            'lastseen': core.wall_now().replace(tzinfo=None).isoformat()}
+                rec.update(a.get('extra', {}))
+                for k in a.get('omit', []):
+                    rec.pop(k, None)
+            else:
+                rec = None
+            c.patch(rd, a.get('ns'), a.get('name', 'default'), {'status': {a['identity']: rec}},
+                    content_type='application/merge-patch+json', actor=a.get('actor', a['identity']))
         elif do == 'rule':
             self.net.rules.append(dict(a['rule'], _hits=0, _seen=0))
         elif do == 'noop':
